@@ -278,6 +278,7 @@ def hop_systems(draw, tier='quick', max_sites=6, max_diff=3, max_frames=10, lat_
         dshift = [[[draw(st.sampled_from([0, 0, -1, 1, -2, 3])) for _ in range(3)] for _ in range(Nd)] for _ in range(T)]
     case = {'lattice': lat, 'sites': {'frac': sites['frac'], 'labels': sites['labels'], 'image_shift': shifts}, 'diff_shift': dshift, 'radius': radius, 'inner_fraction': float(f),
             'diff': path.tolist(), 'plan': plan, 'time_step': 1e-15, 'temperature': draw(st.sampled_from([300.0, 700.0]))}
+    case['prelude'] = draw(st.lists(st.sampled_from(['displacements', 'positions', 'msd', 'distances', 'cumulative', 'drift', 'volume']), max_size=2))
     # the site structure is an independent object: it may carry the same cell in another orientation or a slightly different
     # cell (e.g. a relaxed reference structure); distances are those of the simulation cell in every case
     sc = draw(st.sampled_from(['same', 'same', 'same', 'rotated', 'scaled']))
